@@ -112,4 +112,51 @@ func TestSelfCarrierDisconnect(t *testing.T) {
 	}
 }
 
+// TestSelfCarrierLateWrite: what a client receives when a handler returns without writing and something writes to
+// the ResponseWriter afterwards (net/http: the response was completed, as an empty 200, when the handler returned;
+// the late bytes reach nobody). The carrier must show the same.
+func TestSelfCarrierLateWrite(t *testing.T) {
+	l, err := net.Listen("tcp", "127.0.0.1:0")
+	if err != nil {
+		t.Skipf("loopback not available (%v): carrier fidelity for writes after the handler returned is an assumption", err)
+	}
+	late := make(chan struct{})
+	mk := func() http.Handler {
+		return http.HandlerFunc(func(w http.ResponseWriter, r *http.Request) {
+			go func() {
+				defer func() { recover(); late <- struct{}{} }()
+				time.Sleep(150 * time.Millisecond)
+				w.Header().Set("X-Late", "1")
+				w.WriteHeader(201)
+				io.WriteString(w, "late")
+			}()
+		})
+	}
+	srv := &http.Server{Handler: mk()}
+	go srv.Serve(l)
+	defer srv.Close()
+	c, err := net.Dial("tcp", l.Addr().String())
+	if err != nil {
+		t.Fatalf("dial: %v", err)
+	}
+	defer c.Close()
+	io.WriteString(c, "GET / HTTP/1.1\r\nHost: x\r\n\r\n")
+	<-late
+	c.SetReadDeadline(time.Now().Add(500 * time.Millisecond))
+	raw, _ := io.ReadAll(c)
+	realStatus, realBody := 0, ""
+	if head, body, ok := strings.Cut(string(raw), "\r\n\r\n"); ok {
+		fmt.Sscanf(head, "HTTP/1.1 %d", &realStatus)
+		realBody = body
+	}
+	e := Do(mk(), NewReq("GET", "/", ""))
+	<-late
+	st, body, ok := e.ClientView()
+	t.Logf("handler returns without writing, write 150ms later: net/http client sees status %d body %q | carrier client sees answered=%v status %d body %q (void writes %d)", realStatus, realBody, ok, st, body, e.Snap().WritesAfterReturn)
+	if !ok || st != realStatus || string(body) != realBody {
+		fmt.Printf("HARNESS-BROKEN test=TestSelfCarrierLateWrite: net/http %d %q, carrier %v %d %q\n", realStatus, realBody, ok, st, body)
+		t.Errorf("net/http %d %q, carrier %v %d %q", realStatus, realBody, ok, st, body)
+	}
+}
+
 var _ = strings.Repeat
